@@ -23,6 +23,7 @@ def SrcShape : RTree → List RollRec → Prop
   | .rep n s, srs => srs.length = n ∧ ∀ r ∈ srs, Supp (rollW mkRollDeep s) r
   | .bin _ l r, srs => ∃ a b, srs = [a, b] ∧ Supp (rollW mkRollDeep l) a ∧ Supp (rollW mkRollDeep r) b
   | .un _ s, srs => ∃ a, srs = [a] ∧ Supp (rollW mkRollDeep s) a
+  | .unChain _ s, srs => ∃ a, srs = [a] ∧ Supp (rollW mkRollDeep s) a
   | .substMap _ _ _ s, srs => ∃ a, srs = [a] ∧ Supp (rollW mkRollDeep s) a
   | .subst _ e _ _ src, srs =>
     ∃ a rest, srs = a :: rest ∧ Supp (rollW mkRollDeep src) a ∧
@@ -131,6 +132,10 @@ theorem rollW_srcShape (t : RTree) : AllW (fun rec => SrcShape t rec.sourceRolls
     refine AllW_bind _ _ _ _ (AllW_supp _) (fun b hb => ?_)
     exact AllW_pure _ _ ⟨a, b, rfl, ha, hb⟩
   | un op s =>
+    rw [rollW]
+    refine AllW_bind _ _ _ _ (AllW_supp _) (fun a ha => ?_)
+    exact AllW_pure _ _ ⟨a, rfl, ha⟩
+  | unChain ops s =>
     rw [rollW]
     refine AllW_bind _ _ _ _ (AllW_supp _) (fun a ha => ?_)
     exact AllW_pure _ _ ⟨a, rfl, ha⟩
